@@ -80,6 +80,7 @@ KINDS = collections.OrderedDict([
     ('gboolean', (T('gboolean'), 'basic', 'gboolean')),
     ('double', (B('double'), 'basic', 'gdouble')),
     ('GType', (T('GType'), 'basic', 'GType')),
+    ('gsize', (T('gsize'), 'basic', None)),
     ('alias-int', (T('FooAliasInt'), 'basic', None)),
     ('enum', (T('FooKind'), 'enum', None)),
     ('flags', (T('FooFlags'), 'enum', None)),
@@ -127,6 +128,23 @@ ANN_NAMES = ['transfer', 'in', 'out', 'inout', 'nullable', 'optional', 'allow-no
 DIRECTIONS = ('in', 'out', 'inout')
 USER_TYPES = sorted(AR.TYPE_SPECS)
 ELEM_TYPES = ['utf8', 'gint', 'guint8', 'gpointer', 'Foo.Rec', 'Foo.Obj', 'gdouble', 'filename', 'Foo.Missing']
+
+
+def _by_cat(names):
+    d = collections.OrderedDict()
+    for k in names:
+        d.setdefault(KINDS[k][1], []).append(k)
+    return d
+
+
+CAT_KINDS = _by_cat(KIND_NAMES)
+SIG_CAT_KINDS = _by_cat(SIG_KINDS)
+RET_CAT_KINDS = _by_cat([k for k in KIND_NAMES if k != 'GError**'])
+
+
+@st.composite
+def _kind(draw, table):
+    return draw(st.sampled_from(table[draw(st.sampled_from(list(table)))]))
 
 
 def cat_of(kind):
@@ -361,13 +379,22 @@ def classify(c, dirs):
     """-> {(vid, k): (verdict, expect, prov, row, site, facts)} for every annotation of callable c."""
     out = {}
     rem = removed_index(c)
+    targets = set()
+    for vid, v in values_of(c):
+        for a in v['ann']:
+            if a[0] == 'array' and array_length_name(a) is not None:
+                targets.add(target_index(c, array_length_name(a)))
     for vid, v in values_of(c):
         anns = v['ann']
         for k, a in enumerate(anns):
             site = {'pos': 'return' if vid == 'ret' else 'param', 'callable': c['kind'], 'cat': cat_of(v['kind']),
                     'dir': 'return' if vid == 'ret' else dirs[vid], 'nb': AR.neighbour_keys(anns, k)}
             facts = facts_for(c, vid, k, anns)
-            if vid == rem:
+            if vid != 'ret' and vid in targets and (a[0] == 'transfer' or any(
+                    b[0] == 'array' and array_length_name(b) == v['name'] for b in anns)):
+                # a length parameter's ownership is not a documented notion; an array that is its own length is nonsense
+                verdict, expect, prov, row = AR.UNDECIDED, [], '', -1
+            elif vid == rem:
                 # the trailing GError** disappears from the parameter list: nothing is promised about its annotations,
                 # except that a reference to a missing parameter stays fatal
                 verdict, expect, prov, row = AR.UNDECIDED, [], '', -1
@@ -594,17 +621,28 @@ def check_expect(tok, a, vel, el, c, vid, dirs, where):
 
 
 # ------------------------------------------------------------------ known findings (exclusion by shape)
-def known_key(c, vid, a, anns, clause):
+def known_key(c, vid, a, anns, clause, site=None):
     """Key of a recorded open finding that this failed expectation matches, or None."""
     n = AR._key_of(a)
+    if clause == 'inapplicable:no-diagnostic:nullable' and site is not None and site['cat'] == 'enum':
+        return 'nullable-accepted-on-enum-value'
+    if clause == 'inapplicable:attribute-changed:closure' and c['kind'] == 'callback' and len(a) == 1:
+        return 'closure-on-non-gpointer-warned-but-applied'
+    if clause == 'attr:out:caller-allocates' and vid != 'ret' and any(
+            b[0] == 'array' and array_length_name(b) == c['params'][vid]['name'] for _, w in values_of(c) for b in w['ann']):
+        return 'out-option-ignored-on-length-parameter'
     keys = AR.neighbour_keys(anns, anns.index(a))
     if clause.startswith(('noattr:', 'attr:')):
         if 'not:optional' in keys or n == 'not:optional':
             return 'not-optional-acts-as-not-nullable'
-    if clause in ('index:closure',) and a[0] == 'closure':
-        return 'closure-annotation-overridden-by-user-data-heuristic'
-    if clause in ('index:destroy', 'attr:destroy:scope') and a[0] == 'destroy':
-        return 'destroy-annotation-overridden-by-destroy-notify-heuristic'
+    if clause == 'index:closure' and a[0] == 'closure' and vid != 'ret' and len(a) == 2:
+        t = target_index(c, a[1])
+        if any(j > vid and j != t and cat_of(q['kind']) == 'untyped' and q['name'].endswith('data') for j, q in enumerate(c['params'])):
+            return 'closure-annotation-overridden-by-user-data-heuristic'
+    if clause == 'index:destroy' and a[0] == 'destroy' and vid != 'ret' and len(a) == 2:
+        t = target_index(c, a[1])
+        if any(j > vid and j != t and cat_of(q['kind']) == 'destroy' for j, q in enumerate(c['params'])):
+            return 'destroy-annotation-overridden-by-destroy-notify-heuristic'
     if clause == 'attr:scope:scope' and vid != 'ret' and cat_of(c['params'][vid]['kind']) == 'asyncready':
         return 'scope-annotation-overridden-on-async-ready-callback'
     return None
@@ -626,6 +664,10 @@ def crash_shapes(c, vid, v, a):
         if a[0] == 'type' and len(a) == 2 and AR.TYPE_SPECS.get(a[1]) is None and v['kind'] not in SIG_FUNDAMENTAL \
                 and v['kind'] != 'void':
             yield 'crash:unresolvable-type-on-signal-value'
+        if a[0] == 'type' and len(a) == 2 and a[1] in ('gint', 'guint8', 'gboolean', 'gdouble') \
+                and v['kind'] not in SIG_FUNDAMENTAL and v['kind'] != 'void' \
+                and any(b[0] in ('nullable', 'allow-none') or (b[0] == 'transfer' and b[1:] in (['none'], ['full'])) for b in v['ann']):
+            yield 'crash:basic-type-override-on-signal-value'
 
 
 def without_known_crashes(case, ctx):
@@ -744,6 +786,9 @@ def check_case(case, ctx):
                 lo, hi = block_line(c), block_line(c) + BLOCK_STRIDE - 1
                 new = [key for key in (base_keys - bkeys) if any(f == CFILE and lo <= l <= hi for f, l in key[2])]
                 if not new:
+                    key = known_key(c, vid, a, v['ann'], 'inapplicable:no-diagnostic:%s' % AR._key_of(a).split(':')[0], site)
+                    if key is not None and ctx.known(key):
+                        continue
                     raise Violation('inapplicable:no-diagnostic:%s' % AR._key_of(a).split(':')[0],
                                     '%s: inapplicable here (table row %d: %s) but the scanner reports nothing new in the block '
                                     '(diagnostics with the annotation: %r)\n%s'
@@ -755,6 +800,9 @@ def check_case(case, ctx):
                     g1 = governed(value_element(el, c, vid), a[0])
                     g0 = governed(value_element(bels[label], c, vid), a[0])
                     if g1 != g0:
+                        key = known_key(c, vid, a, v['ann'], 'inapplicable:attribute-changed:%s' % a[0], site)
+                        if key is not None and ctx.known(key):
+                            continue
                         raise Violation('inapplicable:attribute-changed:%s' % a[0],
                                         '%s: inapplicable here (table row %d: %s) and warned about, yet %r changed from %r to %r in <%s>\n%s'
                                         % (where, row, prov, AR.GOVERNS[a[0]], g0, g1, label, describe(case)))
@@ -848,9 +896,9 @@ def _callable(draw, idx):
         c['on'] = draw(st.sampled_from(['obj', 'obj', 'boxed']))
     if kind == 'vfunc':
         c['sub'] = draw(st.sampled_from(['own', 'own', 'invoker']))
-    pool = SIG_KINDS if kind == 'signal' else KIND_NAMES
+    pool = SIG_CAT_KINDS if kind == 'signal' else CAT_KINDS
     n = draw(st.integers(0, 5))
-    kinds = draw(st.lists(st.sampled_from(pool), min_size=n, max_size=n))
+    kinds = [draw(_kind(pool)) for _ in range(n)]
     if kind != 'signal' and draw(st.integers(0, 2)) == 0:
         i = draw(st.integers(0, len(kinds)))
         kinds[i:i] = draw(st.sampled_from([['cb', 'gpointer'], ['cb', 'gpointer', 'GDestroyNotify'], ['gpointer', 'cb', 'GDestroyNotify'],
@@ -870,8 +918,8 @@ def _callable(draw, idx):
             nm = 'error'
         params.append({'name': nm, 'kind': k, 'ann': []})
     c['params'] = params
-    rpool = ['void'] + (SIG_KINDS if kind == 'signal' else [k for k in KIND_NAMES if k != 'GError**'])
-    c['ret'] = {'kind': draw(st.sampled_from(rpool)), 'ann': []}
+    rkind = 'void' if draw(st.integers(0, 5)) == 0 else draw(_kind(SIG_CAT_KINDS if kind == 'signal' else RET_CAT_KINDS))
+    c['ret'] = {'kind': rkind, 'ann': []}
     for j in range(len(params)):
         draw(_annotations(c, j))
     draw(_annotations(c, 'ret'))
@@ -973,6 +1021,8 @@ def health(agg, tier):
         if lab.get('ann:' + n, 0) < floor:
             probs.append('annotation %s in only %d of %d asserted pairs' % (n, lab.get('ann:' + n, 0), pairs))
     for cat in AR.CATS:
+        if cat == 'void':
+            continue        # absence of a value, not a type kind; reported in the labels only
         if lab.get('cat:' + cat, 0) < floor:
             probs.append('type kind %s in only %d of %d asserted pairs' % (cat, lab.get('cat:' + cat, 0), pairs))
     for k in CALLABLE_KINDS:
